@@ -2,7 +2,7 @@
 
 use crate::adapters::SyntaxHighlighterAdapter;
 use crate::html;
-use std::collections::{hash_map, HashMap};
+use std::collections::HashMap;
 use std::io::{self, Write};
 use syntect::easy::HighlightLines;
 use syntect::highlighting::{Color, ThemeSet};
@@ -112,8 +112,15 @@ impl SyntaxHighlighterAdapter for SyntectAdapter {
                     colour.r, colour.g, colour.b
                 );
 
-                let mut pre_attributes = SyntectPreAttributes::new(attributes, &style);
-                html::write_opening_tag(output, "pre", pre_attributes.iter_mut())
+                // Fixed (alphabetical) order: the map's iteration order
+                // varies from one map instance to the next.
+                let mut attributes: Vec<(String, String)> = attributes.into_iter().collect();
+                attributes.sort();
+                match attributes.iter_mut().find(|(k, _)| k == "style") {
+                    Some((_, v)) => v.insert_str(0, &style),
+                    None => attributes.push((String::from("style"), style)),
+                }
+                html::write_opening_tag(output, "pre", attributes)
             }
             None => {
                 let mut attributes: HashMap<&str, &str> = HashMap::new();
@@ -128,55 +135,11 @@ impl SyntaxHighlighterAdapter for SyntectAdapter {
         output: &mut dyn Write,
         attributes: HashMap<String, String>,
     ) -> io::Result<()> {
+        // Fixed (alphabetical) order: the map's iteration order varies from
+        // one map instance to the next.
+        let mut attributes: Vec<(String, String)> = attributes.into_iter().collect();
+        attributes.sort();
         html::write_opening_tag(output, "code", attributes)
-    }
-}
-
-struct SyntectPreAttributes {
-    syntect_style: String,
-    attributes: HashMap<String, String>,
-}
-
-impl SyntectPreAttributes {
-    fn new(attributes: HashMap<String, String>, syntect_style: &str) -> Self {
-        Self {
-            syntect_style: syntect_style.into(),
-            attributes,
-        }
-    }
-
-    fn iter_mut(&mut self) -> SyntectPreAttributesIter {
-        SyntectPreAttributesIter {
-            iter_mut: self.attributes.iter_mut(),
-            syntect_style: &self.syntect_style,
-            style_written: false,
-        }
-    }
-}
-
-struct SyntectPreAttributesIter<'a> {
-    iter_mut: hash_map::IterMut<'a, String, String>,
-    syntect_style: &'a str,
-    style_written: bool,
-}
-
-impl<'a> Iterator for SyntectPreAttributesIter<'a> {
-    type Item = (&'a str, &'a str);
-
-    fn next(&mut self) -> Option<Self::Item> {
-        match self.iter_mut.next() {
-            Some((k, v)) if k == "style" && !self.style_written => {
-                self.style_written = true;
-                v.insert_str(0, self.syntect_style);
-                Some((k, v))
-            }
-            Some((k, v)) => Some((k, v)),
-            None if !self.style_written => {
-                self.style_written = true;
-                Some(("style", self.syntect_style))
-            }
-            None => None,
-        }
     }
 }
 
